@@ -7,8 +7,8 @@ From Coq Require Import List Arith ZArith Reals.
 From OV.base Require Import Num.
 From Coq Require Import QArith Qreals.
 Close Scope Q_scope.
-From OV.model Require Import M_C13_Struct M_C13_Edges M_C13_Combine M_C13_Read M_C13_Elevate M_C13_Coords M_C13_ElevMesh M_C13_ReadFile.
-From OV.proofs Require Import L_C13_Struct L_C13_Edges L_C13_Combine L_C13_Read L_C13_Top L_C13_Elevate L_C13_Elev2 L_C13_Elev3 L_C13_Coords L_C13_ElevMesh L_C13_ReadFile.
+From OV.model Require Import M_C13_Struct M_C13_Edges M_C13_Combine M_C13_Read M_C13_Elevate M_C13_Coords M_C13_ElevMesh M_C13_ReadFile M_C13_ReadChk M_C13_Jac.
+From OV.proofs Require Import L_C13_Struct L_C13_Edges L_C13_Combine L_C13_Read L_C13_Top L_C13_Elevate L_C13_Elev2 L_C13_Elev3 L_C13_Coords L_C13_ElevMesh L_C13_ReadFile L_C13_ReadChk L_C13_Jac.
 Import ListNotations.
 
 (* ---- structured generator: in-range connectivity using every node, counter-clockwise elements of positive area,
@@ -189,8 +189,75 @@ Example C13_read_exodus_nonvacuous :
   /\ NoDup (final_names clash_auto 0 (ef_nsnames sample_file)) /\ NoDup (final_names clash_auto 0 (ef_ssnames sample_file))
   /\ rm_conns (read_exodus true clash_auto clash_auto clash_auto sample_file) = [[0; 3; 1; 5; 4; 2]; [1; 7; 6; 4; 8; 2]].
 Proof. exact read_exodus_nonvacuous. Qed.
-(* NOT PROVED (readers): the netCDF / JSON file layer (bytes -> records) and name decoding are outside the model; block_maps
-   (slices of elem_num_map) and coordinates are tested only. *)
+(* ---- finding C13-READ-NAMES, the repair.  dict(zip(names, vals)) / blocks[name] = ... keeps one entry per record IF AND ONLY IF the
+        names are pairwise distinct; so the distinct-names hypothesis above is not only sufficient but exactly the loss-free case: *)
+Theorem C13_dict_assignment_lossless_iff : forall (V : Type) (names : list Z) (vals : list V), length names = length vals ->
+  (length (dict_of names vals) = length names <-> NoDup names).
+Proof. exact @dict_of_lossless_iff. Qed.
+(* [read_exodus_checked] (model/M_C13_ReadChk.v) is the reader with the PROPOSED patch (after the auto-naming loops:
+   `if len(set(names)) != len(names): raise ValueError`): it accepts exactly the files with pairwise distinct final names and returns
+   what the present reader returns; it rejects exactly the well-formed files on which the present reader drops a record; on every
+   accepted file nothing is lost, with NO hypothesis on the names (tied to the patched source text applied in memory, on every run). *)
+Theorem C13_read_exodus_checked_spec : forall six aB aN aS f,
+  (forall r', read_exodus_checked six aB aN aS f = Some r'
+     <-> (NoDup (final_names aB 0 (ef_bnames f)) /\ NoDup (final_names aN 0 (ef_nsnames f)) /\ NoDup (final_names aS 0 (ef_ssnames f)))
+         /\ r' = read_exodus six aB aN aS f)
+  /\ (read_exodus_checked six aB aN aS f = None
+      <-> ~ (NoDup (final_names aB 0 (ef_bnames f)) /\ NoDup (final_names aN 0 (ef_nsnames f)) /\ NoDup (final_names aS 0 (ef_ssnames f)))).
+Proof. exact read_exodus_checked_spec. Qed.
+Theorem C13_read_exodus_rejects_iff_record_lost : forall six aB aN aS f, exo_wf six f ->
+  let r := read_exodus six aB aN aS f in
+  read_exodus_checked six aB aN aS f = None
+  <-> (length (rm_blocks r) < length (ef_blocks f) \/ length (rm_nodesets r) < length (ef_nodesets f)
+       \/ length (rm_sidesets r) < length (ef_sidesets f)).
+Proof. exact read_exodus_rejects_iff_record_lost. Qed.
+Theorem C13_read_exodus_checked_no_loss : forall six aB aN aS f, exo_wf six f ->
+  forall r', read_exodus_checked six aB aN aS f = Some r' ->
+    r' = read_exodus six aB aN aS f
+    /\ (concat (map snd (rm_blocks r')) = seq 0 (length (rm_conns r')) /\ length (rm_blocks r') = length (ef_blocks f)
+        /\ forall b blk k, nth_error (ef_blocks f) b = Some blk -> nth_error (final_names aB 0 (ef_bnames f)) b = Some k ->
+             dget (rm_blocks r') k = Some (seq (block_first (ef_blocks f) b) (length blk)))
+    /\ (length (rm_nodesets r') = length (ef_nodesets f)
+        /\ forall i l k, nth_error (ef_nodesets f) i = Some l -> nth_error (final_names aN 0 (ef_nsnames f)) i = Some k ->
+             dget (rm_nodesets r') k = Some (to0 l) /\ map S (to0 l) = l /\ Forall (fun n => n < ef_nnodes f) (to0 l))
+    /\ (length (rm_sidesets r') = length (ef_sidesets f)
+        /\ forall i es ss k, nth_error (ef_sidesets f) i = Some (es, ss) -> nth_error (final_names aS 0 (ef_ssnames f)) i = Some k ->
+             dget (rm_sidesets r') k = Some (read_sideset es ss) /\ map (fun p => S (fst p)) (read_sideset es ss) = es
+             /\ map (fun p => S (snd p)) (read_sideset es ss) = ss
+             /\ Forall (fun p => fst p < length (rm_conns r') /\ snd p < 3) (read_sideset es ss)).
+Proof. exact read_exodus_checked_no_loss. Qed.
+(* ---- block_maps (_read_block_maps: iterates over the blocks DICT and slices the element number map, the file's elem_num_map or
+        1..nE): under distinct names block b's entry is the slice [first_b, first_b + n_b) of the map in force and the slices in
+        order are the whole map.  With a name clash block_maps are misaligned too (the surviving block of the witness file, which
+        holds element 1, gets the global number of element 0) -- same finding. *)
+Theorem C13_read_block_maps : forall six aB aN aS f, exo_wf six f -> NoDup (final_names aB 0 (ef_bnames f)) ->
+  forall emap, (match emap with Some l => length l = length (rm_conns (read_exodus six aB aN aS f)) | None => True end) ->
+  let r := read_exodus six aB aN aS f in
+  let em := match emap with Some l => l | None => seq 1 (length (rm_conns r)) end in
+  let bm := read_block_maps emap (rm_blocks r) in
+  map fst bm = final_names aB 0 (ef_bnames f) /\ length bm = length (ef_blocks f)
+  /\ (forall b blk k, nth_error (ef_blocks f) b = Some blk -> nth_error (final_names aB 0 (ef_bnames f)) b = Some k ->
+        dget bm k = Some (firstn (length blk) (skipn (block_first (ef_blocks f) b) em)))
+  /\ concat (map snd bm) = em.
+Proof. exact read_block_maps_spec. Qed.
+Theorem C13_read_block_maps_name_clash_refuted :
+  let r := read_exodus false clash_auto clash_auto clash_auto clash_file in
+  rm_blocks r = [(7%Z, [1])] /\ read_block_maps (Some [10; 20]) (rm_blocks r) = [(7%Z, [10])] /\ nth 1 [10; 20] 0 = 20
+  /\ read_exodus_checked false clash_auto clash_auto clash_auto clash_file = None.
+Proof. exact read_block_maps_name_clash_refuted. Qed.
+(* ---- coordinates (_read_coordinates: column_stack([coordx, coordy])): one row per node, row i = (coordx[i], coordy[i]) *)
+Theorem C13_read_coords : forall (T : Type) (xs ys : list T) n, length xs = n -> length ys = n ->
+  length (read_coords xs ys) = n /\ map fst (read_coords xs ys) = xs /\ map snd (read_coords xs ys) = ys
+  /\ forall i x y, nth_error xs i = Some x -> nth_error ys i = Some y -> nth_error (read_coords xs ys) i = Some (x, y).
+Proof. exact @read_coords_spec. Qed.
+Example C13_read_checked_nonvacuous :
+  (exists r', read_exodus_checked true clash_auto clash_auto clash_auto sample_file = Some r')
+  /\ read_block_maps None (rm_blocks (read_exodus true clash_auto clash_auto clash_auto sample_file)) = [(6%Z, [1]); (7%Z, [2])].
+Proof. exact read_checked_nonvacuous. Qed.
+(* NOT PROVED (readers): the netCDF / JSON file layer (bytes -> records), name decoding and the masked-array handling of coordx /
+   coordy (.filled()) are outside the model (the reader code runs unchanged on a stand-in Dataset).  That the repository's reader IS
+   the checked reader is false today (open finding C13-READ-NAMES); the checked reader is the proposed patch, tied by applying the
+   patch text to the source in memory on every run. *)
 
 (* ---- order elevation, numbering only: the ids handed to the slots (vertex), (edge e, k < p-1), (element t, k < nInt) are
         exactly 0 .. nV + nE(p-1) + nT*nInt - 1, each once (no duplicate, no unused id), and the right element receives the
@@ -344,10 +411,112 @@ Theorem C13_elevated_coords_column : forall (X s1d : nat -> R) ref pe nV m conns
   /\ forall id d, id < em_nnodes pe nV m conns ->
        nth id (@em_coords R NumR X s1d ref pe nV m conns) d = @em_coord R NumR X s1d ref pe nV m conns id.
 Proof. intros. split; [apply em_coords_length | intros; now apply em_coords_nth]. Qed.
+(* ---- GEOMETRIC NON-DEGENERACY of the elevated elements.  optimism never forms the isoparametric map: FunctionSpace.py takes the
+        geometry of every element from its three vertex nodes (jac = cross(v1 - v0, v2 - v0), J = column_stack((v0 - v2, v1 - v2))).
+        Objects (model/M_C13_Jac.v): [el_coord X .. t p] the stored coordinate of local node p of elevated element t (coords[conns[t][p]]),
+        [wsumf 0 W c] = sum_p W[p] c(p), [iso_pos N c] the isoparametric image sum_p N_p x_p, [iso_det Gx Gy cx cy] the determinant of
+        the isoparametric Jacobian from the parametric gradient rows, [simplex_det] the constant Jacobian of the simplex.
+        [repro ref n xi N Gx Gy eps] (proofs/L_C13_Jac.v): the shape row reproduces 1, xi0, xi1 and their gradients at xi within eps
+        (sum N = 1, sum N ref = xi, sum grad N = 0, sum grad N (x) ref = I).  Bounds: comp_size Z = |Z2| + |Z0-Z2| + |Z1-Z2|,
+        entry_bound Z = eps comp_size Z + lam em_bound Z (lam >= sum |grad N|), det_bound = entry_bound Y (|X0-X2|+|X1-X2|)
+        + entry_bound X (|Y0-Y2|+|Y1-Y2|) + 2 entry_bound X entry_bound Y. *)
+(* exact Lagrange shape functions -- the solution of the transposed Vandermonde systems Interpolants.shape2d solves, for ANY basis whose
+   span contains 1, xi0, xi1 (coefficient lists c1, cx, cy; dxb, dyb the derivative functions) -- reproduce at EVERY point xi *)
+Theorem C13_lagrange_shapes_reproduce_affine : forall (ref : nat -> R * R) (n nb : nat) (pb dxb dyb : nat -> R * R -> R) (c1 cx cy : list R),
+  length c1 = nb -> length cx = nb -> length cy = nb ->
+  (forall eta, wsumf 0 c1 (fun j => pb j eta) = 1%R /\ wsumf 0 c1 (fun j => dxb j eta) = 0%R /\ wsumf 0 c1 (fun j => dyb j eta) = 0%R) ->
+  (forall eta, wsumf 0 cx (fun j => pb j eta) = fst eta /\ wsumf 0 cx (fun j => dxb j eta) = 1%R /\ wsumf 0 cx (fun j => dyb j eta) = 0%R) ->
+  (forall eta, wsumf 0 cy (fun j => pb j eta) = snd eta /\ wsumf 0 cy (fun j => dxb j eta) = 0%R /\ wsumf 0 cy (fun j => dyb j eta) = 1%R) ->
+  forall xi N Gx Gy, length N = n -> length Gx = n -> length Gy = n ->
+    (forall j, j < nb -> wsumf 0 N (fun a => pb j (ref a)) = pb j xi) ->
+    (forall j, j < nb -> wsumf 0 Gx (fun a => pb j (ref a)) = dxb j xi) ->
+    (forall j, j < nb -> wsumf 0 Gy (fun a => pb j (ref a)) = dyb j xi) ->
+    repro ref n xi N Gx Gy 0.
+Proof. exact lagrange_repro. Qed.
+(* with EXACT tables (delta = delta' = 0) and exact reproduction (eps = 0): at every such point the isoparametric map of every elevated
+   element IS the affine map of its simplex, its Jacobian matrix IS column_stack((v0 - v2, v1 - v2)) and its determinant the simplex's *)
+Theorem C13_isoparametric_map_is_affine_exact : forall (X Y s1d : nat -> R) ref pe nV m conns,
+  pe_okb pe m = true -> NoDup (all_faces conns) -> (forall f, In f (all_faces conns) -> fst f <> snd f) ->
+  Forall (fun c => length c = 3) conns -> Forall (Forall (fun i => i < nV)) conns ->
+  ref_good ref pe s1d 0 -> (forall k, k < m -> (Rabs (s1d k + s1d (m - 1 - k)%nat - 1) <= 0)%R) ->
+  forall t, t < length conns -> forall xi N Gx Gy, repro ref (pe_n pe) xi N Gx Gy 0 ->
+    let cx := el_coord X s1d ref pe nV m conns t in let cy := el_coord Y s1d ref pe nV m conns t in
+    let V := fun (Z : nat -> R) (i : nat) => Z (em_tri conns t i) in
+    iso_pos N cx = affine_image (fst xi) (snd xi) (V X 0) (V X 1) (V X 2)
+    /\ iso_pos N cy = affine_image (fst xi) (snd xi) (V Y 0) (V Y 1) (V Y 2)
+    /\ wsumf 0 Gx cx = (V X 0%nat - V X 2%nat)%R /\ wsumf 0 Gy cx = (V X 1%nat - V X 2%nat)%R
+    /\ wsumf 0 Gx cy = (V Y 0%nat - V Y 2%nat)%R /\ wsumf 0 Gy cy = (V Y 1%nat - V Y 2%nat)%R
+    /\ iso_det Gx Gy cx cy = simplex_det X Y conns t.
+Proof. exact iso_exact. Qed.
+(* with the certificate tolerances: position, the four Jacobian entries and the determinant, with explicit bounds; positivity *)
+Theorem C13_isoparametric_jacobian : forall (X Y s1d : nat -> R) ref pe nV m conns (delta delta' : R),
+  pe_okb pe m = true -> NoDup (all_faces conns) -> (forall f, In f (all_faces conns) -> fst f <> snd f) ->
+  Forall (fun c => length c = 3) conns -> Forall (Forall (fun i => i < nV)) conns ->
+  ref_good ref pe s1d delta -> (forall k, k < m -> (Rabs (s1d k + s1d (m - 1 - k)%nat - 1) <= delta')%R) ->
+  (0 <= delta)%R -> (0 <= delta')%R ->
+  forall t, t < length conns -> forall xi N Gx Gy (eps lam : R), repro ref (pe_n pe) xi N Gx Gy eps -> (asum Gx <= lam)%R -> (asum Gy <= lam)%R ->
+    (forall Z : nat -> R,
+       (Rabs (iso_pos N (el_coord Z s1d ref pe nV m conns t)
+              - affine_image (fst xi) (snd xi) (Z (em_tri conns t 0%nat)) (Z (em_tri conns t 1%nat)) (Z (em_tri conns t 2%nat)))
+        <= eps * comp_size conns t Z + asum N * em_bound Z conns delta delta' t)%R
+       /\ (Rabs (wsumf 0 Gx (el_coord Z s1d ref pe nV m conns t) - (Z (em_tri conns t 0%nat) - Z (em_tri conns t 2%nat)))
+           <= entry_bound conns delta delta' t eps lam Z)%R
+       /\ (Rabs (wsumf 0 Gy (el_coord Z s1d ref pe nV m conns t) - (Z (em_tri conns t 1%nat) - Z (em_tri conns t 2%nat)))
+           <= entry_bound conns delta delta' t eps lam Z)%R)
+    /\ (Rabs (iso_det Gx Gy (el_coord X s1d ref pe nV m conns t) (el_coord Y s1d ref pe nV m conns t) - simplex_det X Y conns t)
+        <= det_bound X Y conns delta delta' t eps lam)%R
+    /\ ((det_bound X Y conns delta delta' t eps lam < simplex_det X Y conns t)%R ->
+        (0 < iso_det Gx Gy (el_coord X s1d ref pe nV m conns t) (el_coord Y s1d ref pe nV m conns t))%R).
+Proof.
+  intros X Y s1d ref pe nV m conns delta delta' H1 H2 H3 H4 H5 H6 H7 H8 H9 t Ht xi N Gx Gy eps lam Hr Lx Ly.
+  split; [intros Z; split; [exact (iso_position s1d ref pe nV m conns delta delta' H1 H2 H3 H4 H5 H6 H7 H8 H9 t Ht xi N Gx Gy eps Hr Z)
+                           | exact (iso_jacobian_entries s1d ref pe nV m conns delta delta' H1 H2 H3 H4 H5 H6 H7 H8 H9 t Ht xi N Gx Gy eps lam Hr Lx Ly Z)] |].
+  split; [exact (iso_jacobian_det X Y s1d ref pe nV m conns delta delta' H1 H2 H3 H4 H5 H6 H7 H8 H9 t Ht xi N Gx Gy eps lam Hr Lx Ly)
+         | exact (iso_jacobian_positive X Y s1d ref pe nV m conns delta delta' H1 H2 H3 H4 H5 H6 H7 H8 H9 t Ht xi N Gx Gy eps lam Hr Lx Ly)].
+Qed.
+(* every hypothesis on tables discharged by ONE computed certificate [jac_cert_okb] = elev_cert_okb (reference tables, tol) + repro_cert_okb
+   (the implementation's OWN shape table at the quadrature points: values and both gradient rows, tolerance tols, lam bounds sum |grad N|),
+   evaluated in Coq on the exact rationals of the binary64 entries for every order 2..5 with and without bubble on every run: at every
+   quadrature point of every element of every consistently oriented triangulation the isoparametric Jacobian is within det_bound of the
+   simplex Jacobian FunctionSpace uses, hence positive whenever twice the element's area exceeds det_bound (~1e-13 x size^2) *)
+Theorem C13_elevated_jacobian_certified : forall pe m refq faces nodes in1d qrecs tol tols lam conns nV (X Y : nat -> R),
+  jac_cert_okb pe m refq faces nodes in1d qrecs tol tols lam = true ->
+  NoDup (all_faces conns) -> (forall f, In f (all_faces conns) -> fst f <> snd f) ->
+  Forall (fun c => length c = 3) conns -> Forall (Forall (fun i => i < nV)) conns ->
+  forall t rc, t < length conns -> In rc qrecs ->
+    let cx := el_coord X (s1d_of_q nodes in1d) (ref_of_q refq) pe nV m conns t in
+    let cy := el_coord Y (s1d_of_q nodes in1d) (ref_of_q refq) pe nV m conns t in
+    let B := det_bound X Y conns (Q2R tol) (Q2R tol) t (Q2R tols) (Q2R lam) in
+    (Rabs (iso_det (rec_Gx rc) (rec_Gy rc) cx cy - simplex_det X Y conns t) <= B)%R
+    /\ ((B < simplex_det X Y conns t)%R -> (0 < iso_det (rec_Gx rc) (rec_Gy rc) cx cy)%R).
+Proof. exact elevated_jacobian_certified. Qed.
+Theorem C13_repro_certificate_sound : forall refq qrecs tol lam, repro_cert_okb refq qrecs tol lam = true ->
+  (0 <= Q2R tol)%R /\ forall rc, In rc qrecs ->
+    repro (ref_of_q refq) (length refq) (rec_xi rc) (rec_N rc) (rec_Gx rc) (rec_Gy rc) (Q2R tol)
+    /\ (asum (rec_Gx rc) <= Q2R lam)%R /\ (asum (rec_Gy rc) <= Q2R lam)%R.
+Proof. exact repro_cert_sound. Qed.
+(* simplex_det is the Jacobian of FunctionSpace.compute_element_volumes: cross(v1 - v0, v2 - v0) *)
+Theorem C13_simplex_det_is_cross : forall (X Y : nat -> R) conns t,
+  simplex_det X Y conns t
+  = ((X (em_tri conns t 1%nat) - X (em_tri conns t 0%nat)) * (Y (em_tri conns t 2%nat) - Y (em_tri conns t 0%nat))
+     - (X (em_tri conns t 2%nat) - X (em_tri conns t 0%nat)) * (Y (em_tri conns t 1%nat) - Y (em_tri conns t 0%nat)))%R.
+Proof. exact simplex_det_cross. Qed.
+Example C13_jacobian_nonvacuous :
+  jac_cert_okb pe_quadratic 1 [(1, 0); (1 # 2, 1 # 2); (0, 1); (1 # 2, 0); (0, 1 # 2); (0, 0)]%Q
+               [[0; 1; 2]; [2; 4; 5]; [5; 3; 0]] [0; 1 # 2; 1]%Q [1]
+               [((1 # 3, 1 # 3), ([-1 # 9; 4 # 9; -1 # 9; 4 # 9; 4 # 9; -1 # 9],
+                                  ([1 # 3; 4 # 3; 0; 0; -4 # 3; -1 # 3], [0; 4 # 3; 1 # 3; -4 # 3; 0; -1 # 3])))]%Q 0%Q 0%Q 4%Q = true
+  /\ nth 0 (struct_conns 3 4) [] = [0; 1; 4]
+  /\ simplex_det (fun n => INR (n mod 3)) (fun n => INR (n / 3)) (struct_conns 3 4) 0 = 1%R.
+Proof. exact jacobian_nonvacuous. Qed.
 (* NOT PROVED: binary64 rounding of the two matrix products (np.dot(A, coords[edgeConn]) and np.dot(A, coords[triConn])): the
    theorems are over R; the binary64 instance of the SAME definition em_coords is executed in Coq and compared with the
-   implementation's coordinate array entry by entry (tolerance 4 ulp-scale units) on every run.  Geometric non-degeneracy of the
-   elevated elements (positive Jacobian at the quadrature points) is not addressed. *)
+   implementation's coordinate array entry by entry (tolerance 4 ulp-scale units) on every run.  Non-degeneracy: that the shape
+   functions optimism computes NUMERICALLY (onp.linalg.solve of the Vandermonde systems, binary64) reproduce the affine functions is
+   proved only for the exact solution (C13_lagrange_shapes_reproduce_affine, every point) and CERTIFIED for the computed tables at the
+   quadrature points (repro_cert_okb, tolerance 1e-11); that the Dubiner basis of vander2d spans P1 is a hypothesis of the Lagrange
+   theorem (coefficient lists c1, cx, cy), not derived from the source; for the bubble elements (shape2dBubble) only the certified
+   tables are covered, not the every-point statement. *)
 
 Example C13_elevated_mesh_nonvacuous :
   elev_cert_okb pe_quadratic 1 [(1, 0); (1 # 2, 1 # 2); (0, 1); (1 # 2, 0); (0, 1 # 2); (0, 0)]%Q
@@ -376,3 +545,7 @@ Print Assumptions C13_elevate_affine_right.
 Print Assumptions C13_elevated_mesh_certified.
 Print Assumptions C13_elevated_mesh_shape.
 Print Assumptions C13_read_exodus_sidesets.
+Print Assumptions C13_read_exodus_rejects_iff_record_lost.
+Print Assumptions C13_read_block_maps.
+Print Assumptions C13_isoparametric_map_is_affine_exact.
+Print Assumptions C13_elevated_jacobian_certified.
